@@ -147,7 +147,7 @@ pub fn render(c: &AclCase) -> Option<String> {
     if top.is_empty() {
         top.push(("dns-search", ylist(vec![])));
     }
-    let tree = ymap(top);
+    let tree = vary_key_order(&ymap(top));
     let text = emit(&tree);
     if parse_yaml(&text).as_ref() != Some(&tree) {
         return None;
